@@ -947,8 +947,9 @@ impl Worker {
                     return "no-reuse".into();
                 }
                 chewing_free(q as *mut c_void);
-                self.tok("chewing_free", &q.to_string(), "");
+                // at once, before any other allocation can take the block: is the caller's block still allocated?
                 let r = libc::malloc(size) as usize;
+                self.tok("chewing_free", &q.to_string(), "");
                 if r == q {
                     // the library released the caller's block
                     self.problem("free-stale", format!("chewing_free released a caller-owned block at {:#x} because a result released earlier had that address (stale OWNED entry)", q));
@@ -1366,7 +1367,7 @@ fn run_worker(lines: &[String], valgrind: bool) -> RunOut {
     if valgrind {
         parse_memcheck(&stderr, &mut results);
     }
-    let tail: Vec<&str> = stderr.lines().filter(|l| !l.starts_with("@@ ")).collect();
+    let tail: Vec<&str> = stderr.lines().filter(|l| !l.starts_with("@@ ") && !l.contains("[ERROR chewing_capi::io]")).collect();
     let tail = tail[tail.len().saturating_sub(12)..].join(" | ");
     RunOut { results, stderr_tail: tail, status: format!("{:?}", out.status) }
 }
